@@ -59,10 +59,15 @@ pub struct Chip {
     pub hits: Vec<Hit>,
     /// readout flags of the trailer (4 bits)
     pub flags: u8,
+    /// 0x00 padding bytes in front of this chip's data (between chip frames padding is legal)
+    pub pad_before: u8,
 }
 
 impl Chip {
     pub fn encode(&self, out: &mut Vec<u8>) {
+        for _ in 0..self.pad_before {
+            out.push(0x00);
+        }
         if self.empty {
             out.push(0xE0 | (self.id & 0xF));
             out.push(self.bc);
@@ -134,10 +139,10 @@ pub fn conforming_frame(lane_ids: &[u8], bc: u8, hits: &[Hit], empty: bool) -> V
         .iter()
         .map(|&id| {
             let chips: Vec<Chip> = if words::is_ib_id(id) {
-                vec![Chip { id: words::ib_lane(id), bc, empty, hits: hits.to_vec(), flags: 0 }]
+                vec![Chip { id: words::ib_lane(id), bc, empty, hits: hits.to_vec(), flags: 0, pad_before: 0 }]
             } else {
                 let base = if (id >> 3) & 1 == 0 { 0 } else { 8 };
-                (0..7).map(|k| Chip { id: base + k, bc, empty, hits: hits.to_vec(), flags: 0 }).collect()
+                (0..7).map(|k| Chip { id: base + k, bc, empty, hits: hits.to_vec(), flags: 0, pad_before: 0 }).collect()
             };
             lane_words(id, &lane_bytes(&chips))
         })
